@@ -276,6 +276,65 @@ def rule_quantifier_kind(db: ProgramDB) -> List[Instance]:
     return out
 
 
+# ---------------------------------------------------------------------------------- REQUANTIFY-DESCRIPTION
+def rule_requantify_description(db: ProgramDB) -> List[Instance]:
+    """A predicate-form term T(From(d), f=v) arrives at an()/the()/infer() already quantified: an An over a description whose conditions
+    are the keyword constraints.  Asking for another quantifier re-wraps THE DESCRIPTION (`<term>._child_`).  Re-wrapping anything derived from the
+    selected variable alone (`<term>._var_`, a new entity(...) over it) leaves the conditions behind: the(T(From(d), name="x")) then ranges over
+    the whole of d."""
+    from ..boolexpr import guards_of
+    out = []
+    fn = db.fn("entity:select_one_or_select_many_or_infer")
+    qp = fn.positional_params[0]
+    rq = db.cls("ResultQuantifier")
+    n = 0
+    for c in own_calls(fn):
+        if not (isinstance(c.func, ast.Name) and c.func.id == qp and c.args):
+            continue
+        g = guards_of(c, fn.node.body) or []
+        par = db.parent(c)
+        while par is not None and not isinstance(par, ast.stmt):
+            if isinstance(par, ast.IfExp):
+                g = g + [(par.test, any(x is c for x in ast.walk(par.body)))]
+            par = db.parent(par)
+        subj = None
+        for t, pol in g:
+            for x in ast.walk(t):
+                if isinstance(x, ast.Call) and dotted(x.func) == "isinstance" and len(x.args) == 2 and pol and not _under_not(t, x):
+                    classes = [e for e in (x.args[1].elts if isinstance(x.args[1], ast.Tuple) else [x.args[1]])]
+                    res = [db.resolve_dotted(fn.module, e) for e in classes]
+                    if res and all(isinstance(r, ClassInfo) and r.is_subclass_of(rq) for r in res):
+                        subj = unparse(x.args[0])
+        if subj is None:
+            continue
+        n += 1
+        arg = c.args[0]
+        if isinstance(arg, ast.Name):
+            ds = [d.value for d in own_nodes(fn.node) if isinstance(d, ast.Assign) and any(isinstance(t, ast.Name) and t.id == arg.id for t in d.targets)]
+            if len(ds) == 1:
+                arg = ds[0]
+        mentions = {x.attr for x in ast.walk(arg) if isinstance(x, ast.Attribute) and unparse(x.value) == subj}
+        ok = "_child_" in mentions
+        if not ok and "_var_" not in mentions and "selected_variable" not in mentions and "selected_variables" not in mentions:
+            out.append(inst("REQUANTIFY-DESCRIPTION", UNDECIDED, fn, f"select_one_or_select_many_or_infer[requantified {subj}]",
+                            f"`{unparse(c)[:80]}`: cannot tell whether the conditions of `{subj}` are part of what is wrapped", line=c.lineno))
+            continue
+        out.append(inst("REQUANTIFY-DESCRIPTION", HOLDS if ok else VIOLATION, fn, f"select_one_or_select_many_or_infer[requantified {subj}]",
+                        f"`{unparse(c)[:60]}` wraps the description of the quantified term, conditions included" if ok else
+                        f"`{unparse(c)[:80]}` wraps `{unparse(arg)[:50]}`, not the description `{subj}._child_` of the quantified term: the conditions of the term (the "
+                        f"keyword constraints of T(From(d), f=v)) are left behind, and the new quantifier ranges over the whole domain", line=c.lineno))
+    if n == 0:
+        raise AnalysisError("select_one_or_select_many_or_infer: no requantification of an already quantified term found")
+    return out
+
+
+def _under_not(root: ast.AST, node: ast.AST) -> bool:
+    for x in ast.walk(root):
+        if isinstance(x, ast.UnaryOp) and isinstance(x.op, ast.Not) and any(y is node for y in ast.walk(x.operand)):
+            return True
+    return False
+
+
 # ---------------------------------------------------------------------------------- FAILURE-CTOR-TOTAL
 def rule_failure_ctor_total(db: ProgramDB) -> List[Instance]:
     """`the` reports 'two solutions' / 'no solution' by raising the package's own exception types.  What leaves evaluate() is that
